@@ -109,3 +109,14 @@ Theorem C03_convert_gfm_safe_inert_xhtml : forall xc c src o, unsafe c = false -
   ConvertModelXC xc c src = Ok o -> InertX o.
 Proof. exact ConvertModelXC_safe_inert_xhtml. Qed.
 Print Assumptions C03_convert_gfm_safe_inert_xhtml.
+
+(* and without the run-time check: the GFM parser model is proved to yield well-formed trees
+   (props/C05.v, C05_gfm_parser_output_wf), so the plain composition is inert in safe mode *)
+Require Import GM.proofs.ParseInv GM.proofs.GfmWf.
+Theorem C03_convert_gfm_model_safe_inert : forall xc c src o, unsafe c = false -> bytes_ok src -> ConvertModelX xc c src = Ok o -> Inert o.
+Proof. exact ConvertModelX_safe_inert. Qed.
+Print Assumptions C03_convert_gfm_model_safe_inert.
+Theorem C03_convert_gfm_model_safe_inert_xhtml : forall xc c src o, unsafe c = false -> xhtml c = true -> bytes_ok src ->
+  ConvertModelX xc c src = Ok o -> InertX o.
+Proof. exact ConvertModelX_safe_inert_xhtml. Qed.
+Print Assumptions C03_convert_gfm_model_safe_inert_xhtml.
